@@ -26,7 +26,8 @@ def ref_answer(K, t):
 # a call of the implementation that does not come back: the unchanged LTL tableau needs up to a few seconds on the
 # deepest formulas of the scale streams; a call that needs more than CALL_TIMEOUT seconds is reported as `ERR Timeout`
 # (which no model answers) and after MAX_TIMEOUTS of them a worker process answers the rest of its share at once
-CALL_TIMEOUT = int(os.environ.get('VERIF_CALL_TIMEOUT', '90'))
+# (quick tier: 240 s, thorough: 1200 s — an order of magnitude above the slowest call of the unchanged code, also on a loaded machine)
+CALL_TIMEOUT = int(os.environ.get('VERIF_CALL_TIMEOUT') or (1200 if os.environ.get('VERIF_TIER_RUNNING') == 'thorough' else 240))
 MAX_TIMEOUTS = 2
 _timeouts = [0]
 
